@@ -160,4 +160,27 @@ theorem built_message_roundtrips (mx fds : Nat) (ops : List BuildOp) (m : Msg) (
 theorem serial_commutes_with_append (m : Msg) (v : Val) (n : Nat) :
     applyEdit (pushTop m v) (.setSerial n) = pushTop (applyEdit m (.setSerial n)) v := rfl
 
+
+/-! ### non-vacuity -/
+
+open Dbus.Proofs.Wire Dbus.Props.C12 in
+theorem exampleReturn_append_ok : AppendOK 4096 exampleReturn (.fixed .byte 7) := by
+  refine { value := ?_, sig_types := ?_, sig_ok := ?_, body_fits := ?_, header_fits := ?_ }
+  · simp [exampleReturn, valTy, WFVal, BTy.isFixed, BTy.fixedSize, BTy.size]
+  · simp [exampleReturn, valTy, WFList, Ty.WF]
+  · left
+    refine ⟨by simp [exampleReturn, valTy, printList, Ty.print, BTy.code, MAX_SIGNATURE_LENGTH], [.basic .byte], by simp [exampleReturn, valTy], by simp [WFList, Ty.WF], ?_⟩
+    intro t ht
+    simp only [List.mem_cons, List.not_mem_nil, or_false] at ht
+    subst ht
+    simp [Ty.DepthOK, Ty.arrayDepth, Ty.structDepth, Ty.dictDepth, MAX_TYPE_DEPTH]
+  · simp [exampleReturn, encodeList, encode, Dbus.Proofs.Wire.encNat_length, pad, padLen, BTy.align, BTy.size, BTy.fixedSize]
+  · simp [exampleReturn, valTy, sigField, setFieldList, FIELD_SIGNATURE, fieldsLen, fieldVal, align8, encodeList, encode, Dbus.Proofs.Wire.encNat_length, Ty.print, BTy.code, pad, padLen,
+      BTy.align, Ty.align, BTy.size, BTy.fixedSize, printList, MAX_ARRAY_LENGTH]
+
+/-- non-vacuity of `build_keeps_valid`: a method return with a byte appended -/
+example : WFMsg 4096 0 ([BuildOp.append (.fixed .byte 7)].foldl applyBuild exampleReturn) :=
+  build_keeps_valid 4096 0 _ exampleReturn exampleReturn_wf ⟨exampleReturn_append_ok, trivial⟩
+
+
 end Dbus.Props.C02
